@@ -589,6 +589,28 @@ func stripOAIGenForRef(opts *FlattenOpts, k string, r *newRef) (bool, error) {
 
 	pr := sortref.TopmostFirst(r.parents)
 
+	// a $ref held by the definition itself (e.g. an array or map of itself) cannot receive the schema of that definition:
+	// the first parent is the topmost one located outside of the definition
+	outer := -1
+	for i, p := range pr {
+		if p != r.path && !strings.HasPrefix(p, r.path+"/") {
+			outer = i
+
+			break
+		}
+	}
+	switch {
+	case outer < 0:
+		// only self-references: nothing to re-inline into
+		return false, nil
+	case outer > 0:
+		reordered := make([]string, 0, len(pr))
+		reordered = append(reordered, pr[outer])
+		reordered = append(reordered, pr[:outer]...)
+		reordered = append(reordered, pr[outer+1:]...)
+		pr = reordered
+	}
+
 	// rewrite first parent schema in hierarchical then lexicographical order
 	debugLog("rewrite first parent %s with schema", pr[0])
 	if err := replace.UpdateRefWithSchema(opts.Swagger(), pr[0], r.schema); err != nil {
